@@ -1006,6 +1006,11 @@ def c02_streams(ctx):
     gs = random_groups(ctx, n, [("analyze", "")], flags=["", "", "i", "m", "s", "im"])
     gs += stress_groups(ctx, ctx.scale(1500, 25000), [("analyze", "")])
     gs += prefix_groups(ctx, ctx.scale(120, 2000), [("analyze", "")]) + line_groups(ctx, ctx.scale(100, 1500), [("analyze", "")])
+    # a min-0, finite-max group over an ambiguous body reached twice at one position (equal-length alternatives / optional prefix)
+    for p in ["(?:x|x)(?:a|ab)?c", "(?:x|[xz])(?:a|ab)?c", "[a-z]*-(?:ab|a|bc){0,2}!", "(?:<|<<?)(?:ab|a|bc){0,2}>", "(?:b|b)(?:a|aa){0,2}c"]:
+        ast = props2.parse_full(p)
+        for s in ["xabac", "xabac xabc", "zz-abca!", "zz-abc!", "<abca>", "baaac", "baac", "xabc", "x-aba!"]:
+            gs.append(Group([Case(p, "", "analyze", s)], {"features": features(ast), "input": s, "ast": ast, "flags": ""}))
     # astral and combining characters: offsets are code points
     for p, s in [("b", "\U0001F600b\U00010400b"), ("\U0001F600", "a\U0001F600b\U0001F600"), ("é", "xéye"), (".", "\U00010400")]:
         gs.append(Group([Case(p, "", "analyze", s)], {"features": set(), "input": s, "ast": ("seq", [("lit", c) for c in p]) if p != "." else ("dot",), "flags": ""}))
